@@ -83,7 +83,7 @@ def _check(l, exp, tag):
     if len(ds) != len(exp):
         return h.fail(tag + ":iter-len")
     for a, nd in zip(ds, exp):
-        if a is not nd.data:
+        if not (a == nd.data):
             return h.fail(tag + ":iter-data")
     return h.ok()
 
@@ -107,12 +107,12 @@ def step(d0: int, d1: int, d2: int, d3: int, d4: int, d5: int, d6: int, d7: int,
     try:
         if op == "append":
             nd = l.append(x)
-            if nd.data is not x:
+            if not (nd.data == x):
                 return h.fail("append:ret")
             exp.append(nd)
         elif op == "prepend":
             nd = l.prepend(x)
-            if nd.data is not x:
+            if not (nd.data == x):
                 return h.fail("prepend:ret")
             exp.insert(0, nd)
         elif op == "extend" or op == "pre_extend":
@@ -139,7 +139,7 @@ def step(d0: int, d1: int, d2: int, d3: int, d4: int, d5: int, d6: int, d7: int,
                 exp = new + nodes
                 vals = xs[::-1]
             for nd, v in zip(new, vals):
-                if nd.data is not v:
+                if not (nd.data == v):
                     return h.fail(tag + ":data")
         elif op == "remove":
             if n == 0:
@@ -154,7 +154,7 @@ def step(d0: int, d1: int, d2: int, d3: int, d4: int, d5: int, d6: int, d7: int,
                     return _check(l, exp, tag)
                 return h.fail("pop_back:no-indexerror")
             r = l.pop_back()
-            if r is not nodes[-1].data:
+            if not (r == nodes[-1].data):
                 return h.fail("pop_back:ret")
             del exp[-1]
         elif op == "pop_front":
@@ -165,7 +165,7 @@ def step(d0: int, d1: int, d2: int, d3: int, d4: int, d5: int, d6: int, d7: int,
                     return _check(l, exp, tag)
                 return h.fail("pop_front:no-indexerror")
             r = l.pop_front()
-            if r is not nodes[0].data:
+            if not (r == nodes[0].data):
                 return h.fail("pop_front:ret")
             del exp[0]
         elif op == "move_to_front":
